@@ -1,6 +1,6 @@
 CONSTANTS D = 1  Mode = "chained"  Lo = 0  Hi = 0  N = 12
   ShapeSet <- OneFlat
-  OrderSet <- Structured
+  OrderFor <- Structured
   SizeTermSt = {"completed"}
   ElemTermSt = {"completed"}
   Drop = TRUE  Eager = TRUE  Record = TRUE
